@@ -295,5 +295,3 @@ func generate(ctx *common.Ctx) []*Prog {
 	}
 	return ps
 }
-
-func probe(ctx *common.Ctx) {}
